@@ -33,6 +33,7 @@ Fixpoint html_f (o : hopts) (tight : bool) (t : ftree) : str :=
     list_open mk ++ [10] ++ $"<li>" ++ (if tight' && first_fpara ts then [] else [10]) ++
     join [10] (map (html_f o tight') ts) ++ (if tight' && last_fpara ts then [] else [10]) ++ $"</li>" ++ [10] ++ list_close mk
   | FHead lv c body => $"<h" ++ [48 + Z.of_nat lv] ++ $">" ++ escape_html_text o (c :: body) ++ $"</h" ++ [48 + Z.of_nat lv] ++ $">"
+  | FRule _ _ => $"<hr />"
   end.
 
 (* ---- serialisation ---- *)
@@ -69,9 +70,9 @@ Lemma tok_seq_plain ts : tok_seq false ts = map (tok_of false) ts.
 Proof. induction ts as [|t r IH]; [reflexivity|]. cbn [tok_seq map blank_tok app]. destruct r; [reflexivity|]. rewrite IH. reflexivity. Qed.
 
 Lemma first_para_tok ts : first_is_paragraph (map (tok_of false) ts) = first_fpara ts.
-Proof. destruct ts as [|[ | | | | ] r]; reflexivity. Qed.
+Proof. destruct ts as [|[ | | | | | ] r]; reflexivity. Qed.
 Lemma last_para_tok ts : last_is_paragraph (map (tok_of false) ts) = last_fpara ts.
-Proof. unfold last_is_paragraph, last_fpara. rewrite <- map_rev. destruct (rev ts) as [|[ | | | | ] r]; reflexivity. Qed.
+Proof. unfold last_is_paragraph, last_fpara. rewrite <- map_rev. destruct (rev ts) as [|[ | | | | | ] r]; reflexivity. Qed.
 
 Lemma marker_list mk : marker_ok mk ->
   (if slen (marker_str mk) =? 1 then None else Some (int_of_digits (removelast (marker_str mk)))) =
@@ -116,11 +117,11 @@ Lemma html_fragment o : forall f t sup, (depth t <= f)%nat -> wf_b t = true ->
   serialize (render o sup false (tok_of false t)) = html_f o sup t.
 Proof.
   induction f as [|f IH]; intros t sup Hd Hw.
-  - destruct t as [c body more|ch n content|ts|mk pad ts|lv hc hb]; [| |cbn [depth] in Hd; lia|cbn [depth] in Hd; lia|].
+  - destruct t as [c body more|ch n content|ts|mk pad ts|lv hc hb|rc rn]; [| |cbn [depth] in Hd; lia|cbn [depth] in Hd; lia| |reflexivity].
     + apply html_para.
     + cbn [tok_of render html_f f_language f_content]. cbn. rewrite ?app_nil_r. reflexivity.
     + apply html_head. cbn [wf_b] in Hw. repeat rewrite andb_true_iff in Hw. destruct Hw as [[[[[[H1 H2] _] _] _] _] _]. apply Nat.leb_le in H1, H2. lia.
-  - destruct t as [c body more|ch n content|ts|mk pad ts|lv hc hb]; [| | | |apply html_head; cbn [wf_b] in Hw; repeat rewrite andb_true_iff in Hw; destruct Hw as [[[[[[H1 H2] _] _] _] _] _]; apply Nat.leb_le in H1, H2; lia].
+  - destruct t as [c body more|ch n content|ts|mk pad ts|lv hc hb|rc rn]; [| | | |apply html_head; cbn [wf_b] in Hw; repeat rewrite andb_true_iff in Hw; destruct Hw as [[[[[[H1 H2] _] _] _] _] _]; apply Nat.leb_le in H1, H2; lia|reflexivity].
     + apply html_para.
     + cbn [tok_of render html_f f_language f_content]. cbn. rewrite ?app_nil_r. reflexivity.
     + cbn [wf_b] in Hw. repeat rewrite andb_true_iff in Hw. destruct Hw as [[Hs Hall] Hg].
@@ -156,7 +157,7 @@ Qed.
 
 Lemma html_f_starts o t : exists r, html_f o false t = 60 :: r.
 Proof.
-  destruct t as [c body more|ch n content|ts|mk pad ts|lv hc hb]; cbn [html_f]; try (eexists; reflexivity).
+  destruct t as [c body more|ch n content|ts|mk pad ts|lv hc hb|rc rn]; cbn [html_f]; try (eexists; reflexivity).
   destruct mk as [b|ds d]; cbn [list_open]; [eexists; reflexivity|]. destruct (int_of_digits ds =? 1); eexists; reflexivity.
 Qed.
 
